@@ -38,7 +38,6 @@ func CreateRacesWithDestroyedGroup(r *rand.Rand) *Scenario {
 	return s
 }
 
-
 // ShrinkingExplicitEnd (targeted scenario shared by C01 and C05): an alert is submitted with an explicit end far in the future and re-submitted
 // (another sender, another validity window) with an EARLIER explicit end that still overlaps; the
 // documented merge keeps the later end. Every component - the API, the aggregation groups, the
@@ -69,7 +68,6 @@ func ShrinkingExplicitEnd(r *rand.Rand) *Scenario {
 	sort.SliceStable(s.Ops, func(i, j int) bool { return s.Ops[i].At < s.Ops[j].At })
 	return s
 }
-
 
 // AdjacentLabelBoundaries (targeted, C01/C04): two alerts of one group whose label sets read the same
 // once names and values are written back to back ({disk="1a"} / {disk1="a"}); the second starts firing
